@@ -61,11 +61,20 @@ fn check_value<T: Response + ?Sized>(st: &mut St, v: &T, val: &Val, label: &str,
     } else if let Err(why) = decodes_to(val, &b) {
         problem = Some(("does-not-decode-to-the-value".into(), why));
     } else {
-        // other writers: same bytes
+        // other writers: same bytes (a response of more than 4096 bytes only meets the
+        // pass-through and the recording writer)
         let mut hw: heapless::Vec<u8, 4096> = heapless::Vec::new();
+        if b.len() > 4096 {
+            hw.resize_default(0).ok();
+        }
         let r2 = block_on(v.write_response(&mut hw));
         st.formats += 1;
-        if !matches!(r2, Ok(Ok(()))) || hw[..] != b[..] {
+        if b.len() > 4096 {
+            // too large for the instantiated fixed-capacity writer: it must refuse, completely
+            if matches!(r2, Ok(Ok(()))) {
+                problem = Some(("heapless-writer-accepts-more-than-its-capacity".into(), format!("{} bytes into heapless::Vec<u8,4096>", b.len())));
+            }
+        } else if !matches!(r2, Ok(Ok(()))) || hw[..] != b[..] {
             problem = Some(("heapless-writer-differs".into(), format!("heapless::Vec<u8,4096>: {:?} \"{}\"", r2, show(&hw))));
         } else {
             // a writer that has exactly room for the response: heapless::Vec<u8, L> with L = |b|
@@ -164,6 +173,27 @@ fn ints(st: &mut St) {
     }
 }
 
+/// u32 and i32 with the high byte `hi`: every value (thorough) or every high half with nine low halves.
+fn int32_part(st: &mut St, hi: u32, thorough: bool) {
+    let mut one = |st: &mut St, bits: u32| {
+        let rp = json!({"part": "int32", "hi": hi, "thorough": thorough});
+        check_value(st, &bits, &Val::Int(bits as i128), "u32", rp.clone(), &bits.to_be_bytes());
+        let v = bits as i32;
+        check_value(st, &v, &Val::Int(v as i128), "i32", rp, &bits.to_be_bytes());
+    };
+    if thorough {
+        for lo in 0..(1u32 << 24) {
+            one(st, hi << 24 | lo);
+        }
+    } else {
+        for mid in 0..256u32 {
+            for lo in [0u32, 1, 9, 10, 9999, 10000, 0x7fff, 0x8000, 0xffff] {
+                one(st, hi << 24 | mid << 16 | lo);
+            }
+        }
+    }
+}
+
 fn f32_case(st: &mut St, bits: u32) {
     let v = f32::from_bits(bits);
     check_value(st, &v, &Val::F32(bits), "f32", json!({"part": "f32", "bits": bits}), &bits.to_be_bytes());
@@ -203,7 +233,21 @@ fn string_case(st: &mut St, s: &str) {
     }
 }
 
-fn blocks(st: &mut St) {
+fn blocks(st: &mut St, thorough: bool) {
+    // every length up to 1100 and around every further power of ten (the digit count of the
+    // length field changes there), first / last byte from a small set
+    let mut lens: Vec<usize> = (2..=1100).collect();
+    lens.extend([9_999, 10_000, 10_001, 99_999, 100_000, 100_001]);
+    if thorough {
+        lens.extend([999_999, 1_000_000, 1_000_001, 9_999_999, 10_000_000]);
+    }
+    for len in lens {
+        for (pos, b) in [(0usize, b'x'), (0, b'\n'), (len - 1, b'"'), (len - 1, 0), (len / 2, b'#'), (len - 1, 255)] {
+            let mut p = vec![b'x'; len];
+            p[pos] = b;
+            check_value(st, &Arbitrary(&p), &Val::Blk(p.clone()), "Arbitrary", json!({"part": "blklen", "len": len, "pos": pos, "byte": b}), &(len as u64).to_be_bytes());
+        }
+    }
     for len in [0usize, 1, 9, 10, 99, 100, 999, 1000] {
         if len == 0 {
             check_value(st, &Arbitrary(&[]), &Val::Blk(vec![]), "Arbitrary", json!({"part": "blk", "value": ""}), b"");
@@ -520,7 +564,8 @@ fn replay(path: &str) -> ! {
             "f64" => f64_case(&mut st, w["bits"].as_str().unwrap().parse().unwrap()),
             "str" => string_case(&mut st, std::str::from_utf8(&unhex(w["value"].as_str().unwrap())).unwrap()),
             "int" | "bool" => ints(&mut st),
-            "blk" | "chars" => blocks(&mut st),
+            "blk" | "chars" | "blklen" => blocks(&mut st, true),
+            "int32" => int32_part(&mut st, w["hi"].as_u64().unwrap() as u32, w["thorough"].as_bool().unwrap()),
             "composite" => composites(&mut st),
             "run" => {
                 let us = units();
@@ -569,14 +614,15 @@ fn main() {
     let n_f64 = 4096usize;
     let n_str = strs.len().div_ceil(512);
     let nu = us.len();
-    let n_parts = 1 + n_f32 + n_f64 + n_str + nu;
+    let n_int = 256usize;
+    let n_parts = 1 + n_f32 + n_f64 + n_str + nu + n_int;
     let strs_ref = &strs;
     let mants_ref = &mants64;
     let us_ref = &us;
     let res = par::run_simple(n_parts, args.threads, args.seed, St::default, |st, p| {
         if p == 0 {
             ints(st);
-            blocks(st);
+            blocks(st, thorough);
             composites(st);
         } else if p <= n_f32 {
             let se = (p - 1) as u32;
@@ -585,10 +631,10 @@ fn main() {
                     f32_case(st, se << 23 | m);
                 }
             } else {
-                // 4096 mantissa patterns: low 6 bits x high 6 bits, plus all-ones / alternating
-                for hi in 0..64u32 {
-                    for lo in 0..64u32 {
-                        f32_case(st, se << 23 | hi << 17 | lo);
+                // 16384 mantissa patterns: low 7 bits x high 7 bits, plus all-ones / alternating
+                for hi in 0..128u32 {
+                    for lo in 0..128u32 {
+                        f32_case(st, se << 23 | hi << 16 | lo);
                     }
                 }
                 for m in [0x7fffffu32, 0x555555, 0x2aaaaa, 0x400000, 0x3fffff] {
@@ -597,9 +643,14 @@ fn main() {
             }
         } else if p <= n_f32 + n_f64 {
             let se = (p - 1 - n_f32) as u64;
-            if thorough || se % 8 == 0 || se % 2048 < 3 || se % 2048 > 2044 {
-                for &m in mants_ref.iter() {
-                    f64_case(st, se << 52 | m);
+            for &m in mants_ref.iter() {
+                f64_case(st, se << 52 | m);
+            }
+            // high x low bit patterns of the significand: 4 x 4 bits (quick), 8 x 8 bits (thorough)
+            let k = if thorough { 8 } else { 4 };
+            for hi in 0..(1u64 << k) {
+                for lo in 0..(1u64 << k) {
+                    f64_case(st, se << 52 | hi << (52 - k) | lo);
                 }
             }
         } else if p <= n_f32 + n_f64 + n_str {
@@ -607,6 +658,8 @@ fn main() {
             for s in strs_ref[b * 512..].iter().take(512) {
                 string_case(st, s);
             }
+        } else if p >= 1 + n_f32 + n_f64 + n_str + nu {
+            int32_part(st, (p - 1 - n_f32 - n_f64 - n_str - nu) as u32, thorough);
         } else {
             let a = p - 1 - n_f32 - n_f64 - n_str;
             check_message(st, us_ref, &[a]);
@@ -643,8 +696,10 @@ fn main() {
     out.cov(
         "bounds",
         json!({"integers": "every value of u8, i8, u16, i16; 0, +-1, +-(2^k-1, 2^k, 2^k+1) for k<=64, +-10^k for the wider types; bool",
-               "f32": if thorough { "all 2^32 bit patterns" } else { "every sign/exponent value x 4101 mantissa patterns (2.1e6 values)" },
-               "f64": format!("{} sign/exponent values x {} mantissa patterns (0, 1, all ones, every single bit, every prefix and suffix of ones, alternating)", if thorough { "all 4096" } else { "every 8th and the extreme" }, mants64.len()),
+               "f32": if thorough { "all 2^32 bit patterns" } else { "every sign/exponent value x 16389 mantissa patterns (8.4e6 values)" },
+               "u32_i32": if thorough { "all 2^32 values of each" } else { "every high half x nine low halves (5.9e5 values of each)" },
+               "block_lengths": "every length 0..=1100, 9999..10001, 99999..100001 [999999..1000001, 9999999, 10000000]",
+               "f64": format!("{} sign/exponent values x {} mantissa patterns (0, 1, all ones, every single bit, every prefix and suffix of ones, alternating) + high x low bit patterns 4 x 4 [8 x 8] bits", "all 4096", mants64.len()),
                "strings": {"alphabet": STR_ALPHA.iter().map(|s| show(s.as_bytes())).collect::<Vec<_>>(), "max_len": if thorough { 5 } else { 4 }, "count": strs.len(), "types": ["&str", "heapless::String<32>"]},
                "blocks": "lengths 0,1,9,10,99,100,999,1000 with every byte value first and last; all 65536 two-byte blocks; Characters",
                "composites": "tuples of arity 2..4, nested tuples, slices and heapless::Vec of length 0..3 over integer / string / float / tuple elements, Error, ()",
